@@ -24,6 +24,13 @@ inductive PyErr
 
 abbrev Py := Except PyErr
 
+instance {α : Type} [DecidableEq α] : DecidableEq (Py α) := fun a b =>
+  match a, b with
+  | .ok x, .ok y => if h : x = y then isTrue (by rw [h]) else isFalse (fun e => h (by cases e; rfl))
+  | .error x, .error y => if h : x = y then isTrue (by rw [h]) else isFalse (fun e => h (by cases e; rfl))
+  | .ok _, .error _ => isFalse (fun e => by cases e)
+  | .error _, .ok _ => isFalse (fun e => by cases e)
+
 /-- `v.to_bytes(1, 'big')` -/
 def toByte (v : Nat) : Py Nat := if v < 256 then pure v else throw .overflowError
 
